@@ -336,41 +336,49 @@ def r4(ctx, cfg):
         ctx.ob(R, key, "sub-events-appended-on-every-success-path", good,
                "a path from the success of execute_submsg reaches the return / next sub-message without appending its events",
                fn=g, line=ext[0][1]["line"], sample="extend on every path after Ok(sub_response)")
-    # accumulator: sub_response.data.or(acc)
-    ors = []
-    for bid, t in g.calls():
-        if t["callee"]["key"] == "std::option::Option::or":
-            ors.append((bid, t, P.call_args(g, t, bid)))
-    ok = len(ors) == 1
-    d = "no Option::or"
-    if ok:
-        a = ors[0][2]
-        first_ok = is_sub_response_field(a[0], "data")
-        sec = peel(a[1])
-        sec_ok = (sec[0] == "bound" and sec[1] == "acc") or contains(sec, lambda x: x[0] == "field" and x[2] == "data" and is_param(x[1], "response"))
-        ok = first_ok and sec_ok
-        d = "or(%s, %s)" % (fmt(a[0])[:60], fmt(a[1])[:60])
-    ctx.ob(R, key, "last-data-wins", ok, "accumulator must be sub_response.data.or(previous); found %s" % d, fn=g,
-           sample=d)
-    # the fold starts from the response's own data and the result is what is returned
-    use = P.closure_use(g) if g.kind == "closure" else None
-    if use is not None:
-        parent, cb, ct, ai = use
-        init = P.call_args(parent, ct, cb)[1]
-        ctx.ob(R, key, "fold-starts-from-own-data",
-               contains(init, lambda x: x[0] == "field" and x[2] == "data" and is_param(x[1], "response")),
-               "fold initial value is %s" % fmt(init)[:100], fn=parent, sample=fmt(init)[:80])
-    # returned AppResponse{events, data}
-    for bid, i, st in f.stmts():
-        rv = st.get("rv", {})
-        if st["k"] == "assign" and rv.get("k") == "aggregate" and rv.get("adt") == "executor::AppResponse":
-            o = P.rvalue(f, rv, (bid, i))
-            dd = dict(o[2])
-            e_ok = contains(dd["events"], lambda x: x[0] == "field" and x[2] == "events" and is_param(x[1], "response"))
-            d_ok = contains(dd["data"], lambda x: x[0] == "call" and x[1] in ("std::iter::Iterator::try_fold", "std::option::Option::or")) or \
-                contains(dd["data"], lambda x: x[0] == "field" and x[2] == "data" and is_param(x[1], "response"))
-            ctx.ob(R, key, "returns-collected-events-and-folded-data", e_ok and d_ok,
-                   "returned AppResponse is %s" % fmt(o)[:200], fn=f, line=st["line"], sample="AppResponse{events, data: fold}")
+    # data: starts as the response's own data and is replaced by every sub-response's data that is present (the last one
+    # wins).  Form-agnostic: `try_fold(data, |data, m| .. Ok(sub.data.or(data)))` or `if sub.data.is_some() { data = sub.data }`
+    # in a loop.  Read from the ways the returned `data` gets its value.
+    aggs = [(bid, i, st) for bid, i, st in f.stmts() if st["k"] == "assign" and st.get("rv", {}).get("k") == "aggregate" and st["rv"].get("adt") == "executor::AppResponse"]
+    ctx.ob(R, key, "one-returned-AppResponse", len(aggs) == 1, "expected one AppResponse built in process_response, found %d" % len(aggs), fn=f, sample="1")
+    if len(aggs) != 1:
+        return
+    bid, i, st = aggs[0]
+    o = P.rvalue(f, st["rv"], (bid, i))
+    dd = dict(o[2])
+    e_ok = contains(dd["events"], lambda x: x[0] == "field" and x[2] == "events" and is_param(x[1], "response"))
+    dop = st["rv"]["ops"][st["rv"]["fields"].index("data")]
+    dl = q.local_of_operand(dop)
+    cases = q.value_cases(P, f, dl) if dl is not None else []
+    kinds = []
+    for val, conds, dsite in cases:
+        for v in alts(peel(val)):
+            v = peel(v)
+            if v[0] == "field" and v[2] == "data" and is_param(v[1], "response"):
+                kinds.append("initial")
+            elif v[0] == "call" and v[1] == "std::option::Option::or" and len(v[2]) == 2:
+                first_new = is_sub_response_field(v[2][0], "data")
+                sec = v[2][1]
+                sec_prev = not is_sub_response_field(sec, "data") and (contains(sec, lambda x: x[0] == "field" and x[2] == "data" and is_param(x[1], "response"))
+                                                                        or contains(sec, lambda x: x[0] in ("cycle",) or (x[0] == "bound" and x[1] == "acc")))
+                kinds.append("new.or(previous)" if first_new and sec_prev else "other:or(%s, %s)" % (fmt(v[2][0])[:40], fmt(sec)[:40]))
+            elif v[0] == "field" and v[2] == "data" and _is_ok_submsg(v[1]):
+                # plain replacement: only under `sub_response.data.is_some()`
+                guarded = any((c[0] == "bool" and c[1][0] == "is_some" and c[1][2] is True and is_sub_response_field(c[1][1][0], "data")) or
+                              (c[0] == "variant_in" and c[2] == ("Some",) and is_sub_response_field(c[1], "data")) for e, c in conds)
+                # .. and under nothing else that looks at the sub-response or at the data collected so far
+                extra = [c for e, c in conds if c[0] == "bool" and not (c[1][0] == "is_some" and c[1][2] is True and is_sub_response_field(c[1][1][0], "data")) and
+                         any(contains(x, lambda y: _is_ok_submsg(y) or y[0] == "cycle" or (y[0] == "field" and y[2] == "data" and is_param(y[1], "response"))) for x in c[1][1])]
+                kinds.append(("new-if-present" if not extra else "other:replacement under %s" % [(c[1][0], c[1][2]) for c in extra]) if guarded else "other:unconditional replacement")
+            elif v[0] in ("cycle", "never") or (v[0] == "ok" and peel(v[1])[0] == "cycle"):
+                continue
+            else:
+                kinds.append("other:" + fmt(v)[:60])
+    ok = "initial" in kinds and any(k in ("new.or(previous)", "new-if-present") for k in kinds) and not any(k.startswith("other") for k in kinds)
+    ctx.ob(R, key, "last-data-wins", ok, "the returned data is built from %s; expected the response's own data, replaced by each present sub-response data" % sorted(set(kinds)), fn=f,
+           sample=str(sorted(set(kinds))))
+    ctx.ob(R, key, "fold-starts-from-own-data", "initial" in kinds, "the returned data does not start from response.data: %s" % sorted(set(kinds)), fn=f, sample="response.data")
+    ctx.ob(R, key, "returns-collected-events-and-folded-data", e_ok, "returned AppResponse is %s" % fmt(o)[:200], fn=f, line=st["line"], sample="AppResponse{events, data: fold}")
 
 
 def r5(ctx, cfg):
